@@ -46,6 +46,8 @@ CHECKS.update({
             "4/C16", "Held on generated programs (1-16 ops, 0-4 residual blocks); programs that Dynamo splits are excluded and counted.", "unit_scaling.functional as established by C01-C06"),
     "C15": ("differential monitor on generated programs: real simulate_format/simulate_fp8 (TorchDynamo) and the backend on hand-built FX graphs vs an independent DSL interpreter with hand-written straight-through quantisers; FPFormat.quantise call log; pinned random source; lossless pair bit-identity",
             "4/C15", "Held on generated programs and format pairs (one open known finding: root module that is itself a torch.nn layer).", "FPFormat.quantise as established by C13/C14"),
+    "C17": ("history monitor over transform chains: bit snapshots + storage-pointer sets of original and intermediates, per-call outputs/gradients, captured backend-run log records, FPFormat.quantise call counters, swapped-order runs, recipe-then-quantised reference interpreter",
+            "4/C17", "All chains of the stated family on generated small modules; compile-terminated chains only in the thorough tier.", "pinned random source; C01-C06/C13-C16 for the reference"),
 })
 
 PENDING = {}
